@@ -868,6 +868,19 @@ func ruleTokContent(c *Ctx) []Obligation {
 					// token types under which this assertion executes
 					var typs []string
 					facts := a.FactsAt(b)
+					// an assertion guarded by a successful type test of the same type cannot fail
+					guarded := false
+					for _, w := range a.WaysTo(b) {
+						_ = w
+					}
+					if ok, _ := allWays(a.WaysTo(b), func(w Facts) bool {
+						return w.Has("is<"+types.TypeString(ta.AssertedType, shortQual)+">("+a.Desc(ta.X)+")", true)
+					}); ok {
+						guarded = true
+					}
+					if guarded {
+						continue
+					}
 					for atom, pol := range facts {
 						if pol && strings.HasPrefix(atom, "eq(\"") && strings.HasSuffix(atom, ",recv.typ)") {
 							typs = append(typs, atom[4:strings.Index(atom, "\",recv.typ)")])
